@@ -31,6 +31,10 @@ struct Case {
 };
 
 using Ref = std::vector<bool>;
+// positions from here on cannot be part of any vector<bool> (its max_size() is below 2^63)
+const uint64_t kHuge = 1ull << 63;
+const uint64_t kHugePositions[] = {SIZE_MAX, SIZE_MAX - 1, SIZE_MAX - 6, SIZE_MAX - 63, SIZE_MAX - 64, SIZE_MAX / 3 * 2 - 1, SIZE_MAX / 3 * 2,
+                                   SIZE_MAX / 3 * 2 + 1, SIZE_MAX / 3 * 2 + 2, kHuge, kHuge + 1};
 
 Ref fromBits(const std::string &s) { Ref r; for (char c : s) r.push_back(c == '1'); return r; }
 std::string toBits(const Ref &r) { std::string s; for (bool b : r) s += b ? '1' : '0'; return s; }
@@ -146,14 +150,16 @@ std::string runCase(const Case &c) {
       switch (op.kind) {
         case SET_ALL: d.set(); ref.assign(ref.size(), true); break;
         case SET_POS: case RESET_POS: case FLIP_POS:
-          if (op.a == SIZE_MAX) {
-            // no size includes this position: the only acceptable outcome is an exception, nothing changed
-            st.cls("position_size_max");
+          if (op.a >= kHuge) {
+            // no vector<bool> can include this position (max_size() < 2^63): the only acceptable outcome is an exception,
+            // nothing changed - also where 1.5 x (position + 1) does not fit into size_t any more
+            st.cls(op.a == SIZE_MAX ? "position_size_max" : "position_huge");
             nontrivial = true;
             bool threw = false;
             try { if (op.kind == SET_POS) d.set(op.a, op.v); else if (op.kind == RESET_POS) d.reset(op.a); else d.flip(op.a); }
             catch (const std::exception &) { threw = true; }
-            if (!threw) return where + "position SIZE_MAX was accepted";
+            if (!threw) return where + "position " + std::to_string(op.a) + " (no size can include it) was accepted";
+            if (d.size() != ref.size()) return where + "refused position " + std::to_string(op.a) + " changed the size to " + std::to_string(d.size());
             break;
           }
           if (op.kind == SET_POS) { d.set(op.a, op.v); std::string g = grow(op.a); if (!g.empty()) return where + g; ref[op.a] = op.v; break; }
@@ -309,7 +315,13 @@ rc::Gen<Case> genCase() {
       switch (o.kind) {
         case SET_POS: case RESET_POS: case FLIP_POS: case IDX_WRITE: case IDX_READ:
           o.a = pos();
-          if ((o.kind == SET_POS || o.kind == RESET_POS || o.kind == FLIP_POS) && *range<int>(0, 24) == 0) { o.a = SIZE_MAX; break; }
+          if ((o.kind == SET_POS || o.kind == RESET_POS || o.kind == FLIP_POS) && *range<int>(0, 24) == 0) {
+            // positions that no size can include: the top of the range, around 2/3 of it (where 1.5 x size overflows), 2^63
+            o.a = *rc::gen::weightedOneOf<uint64_t>({{2, just<uint64_t>(SIZE_MAX)}, {3, rc::gen::map(range<uint64_t>(0, 70), [](uint64_t k) { return SIZE_MAX - k; })},
+                                                      {2, rc::gen::map(range<uint64_t>(0, 8), [](uint64_t k) { return SIZE_MAX / 3 * 2 - 4 + k; })},
+                                                      {1, just<uint64_t>(kHuge)}, {1, just<uint64_t>(kHuge + 1)}, {2, range<uint64_t>(kHuge, SIZE_MAX)}});
+            break;
+          }
           if (o.a >= cur) cur = static_cast<size_t>((o.a + 1) * 1.5);
           break;
         case TEST: case CONST_IDX: o.a = pos(); break;
@@ -346,11 +358,11 @@ void enumerate(const std::function<bool(const Case &)> &cb) {
       switch (kind) {
         case SET_POS: case IDX_WRITE: case RESIZE:
           for (uint64_t p = 0; p <= init.size() + 3; ++p) for (int v = 0; v < 2; ++v) { Op o; o.a = p; o.v = v; if (!emit(o)) return; }
-          if (kind == SET_POS) { Op o; o.a = SIZE_MAX; o.v = true; if (!emit(o)) return; }
+          if (kind == SET_POS) for (uint64_t p : kHugePositions) { Op o; o.a = p; o.v = true; if (!emit(o)) return; }
           break;
         case RESET_POS: case FLIP_POS: case IDX_READ: case TEST: case CONST_IDX: case SHL: case SHR:
           for (uint64_t p = 0; p <= init.size() + 3; ++p) { Op o; o.a = p; if (!emit(o)) return; }
-          if (kind == RESET_POS || kind == FLIP_POS) { Op o; o.a = SIZE_MAX; if (!emit(o)) return; }
+          if (kind == RESET_POS || kind == FLIP_POS) for (uint64_t p : kHugePositions) { Op o; o.a = p; if (!emit(o)) return; }
           break;
         case AND_ASSIGN: case OR_ASSIGN: case XOR_ASSIGN:
           for (auto &other : all) { Op o; o.bits = other; if (!emit(o)) return; }
